@@ -294,6 +294,9 @@ def conditions(tier):
         L = _letters_for(c)
         out.append(_mk_cfg((2, 1), 1, L, ncpu=False, compression=c))
         out.append(_mk_cfg((2, 2), 2, L, ncpu=False, compression=c))
+    # composition vectors exactly on the ball boundary (three substitutions between the same two bins): the radius must not round below sqrt(2)*k
+    out.append(_mk_cfg((3, 3), 3, "AY", ncpu=False, budget=400))
+    out.append(_mk_cfg((3, 3), 3, "AY", mode="hamming", ncpu=False, compression=2, budget=400))
     out.append(_mk_cfg((2, 1), 1, "AC", ncpu=True, compression=2))
     out.append(_mk_cfg((2, 2), 1, "AY", mode="hamming", ncpu=False, compression=20))
     out.append(_mk_cfg((1, 1, 1), 1, "ACD", mode="custom", ncpu=False, compression=2))
